@@ -32,6 +32,7 @@ pub fn list() -> Vec<(&'static str, super::Scenario)> {
         ("panic_many", panic_many),
         ("sync_wipe", sync_wipe),
         ("repoll", repoll),
+        ("nested_wait", nested_wait),
     ]
 }
 
@@ -2208,5 +2209,61 @@ fn repoll(cfg: &Cfg) {
     let mut objs: Vec<&Obj> = vec![&q];
     objs.extend(pins.iter());
     finish(&w, &objs, pool);
+    shutdown();
+}
+
+/// C04 / C14: a blocking wait nested inside another blocking wait *on the same thread*.  Objects q and x are both held by
+/// threads inside `sync` (blocking jobs).  A job J queued on q itself does `inner` on x (0 sync, 1 drops the last owner of a
+/// third busy object, 2 `.sync()` on a future_desync of x).  Thread T calls sync(q): it waits in the background, takes q over
+/// when its holder lets go (no free pool thread), runs J, and so waits a second time, for x, inside its first wait.
+fn nested_wait(cfg: &Cfg) {
+    let pool = cfg.pool();
+    setup(pool);
+    let inner = cfg.opt("inner", 0);
+    let w = World::new();
+    w.prelude(cfg);
+    let q = mkobj(&w, cfg);
+    let x = mkobj(&w, cfg);
+    let (bgq, bgx) = (BGate::new(), BGate::new());
+    let h1 = {
+        let (w1, q1, b) = (w.clone(), q.clone(), bgq.clone());
+        spawn(move || { w1.sync(&q1, "HOLD-Q", Body::blocking(&b)); })
+    };
+    let h2 = {
+        let (w1, x1, b) = (w.clone(), x.clone(), bgx.clone());
+        spawn(move || { w1.sync(&x1, "HOLD-X", Body::blocking(&b)); })
+    };
+    rt::quiesce();
+    {
+        let (w1, x1) = (w.clone(), x.clone());
+        w.desync(&q, "J", Body::with(move || match inner {
+            2 => w1.future_desync(&x1, "J/fd.sync", Body::plain()).sync(),
+            _ => { w1.sync(&x1, "J/xsync", Body::plain()); }
+        }));
+    }
+    let t = {
+        let (w1, q1) = (w.clone(), q.clone());
+        spawn(move || { w1.sync(&q1, "S", Body::plain()); })
+    };
+    if cfg.opt("seq", 0) == 1 {
+        // the holders let go one after the other: x only after T has started its second wait
+        rt::quiesce();
+        bgq.open();
+        join(h1, "holder-q");
+        rt::quiesce();
+        bgx.open();
+    } else {
+        // the holders let go at explored moments
+        let e = {
+            let b = bgx.clone();
+            spawn(move || b.open())
+        };
+        bgq.open();
+        join(e, "x-release");
+        join(h1, "holder-q");
+    }
+    join(h2, "holder-x");
+    join(t, "t");
+    finish(&w, &[&q, &x], pool);
     shutdown();
 }
